@@ -13,7 +13,7 @@ IsEvent(k) == HasEv /\ E.ev = k /\ E.t = now /\ l' = l + 1 /\ UNCHANGED tid
 
 TInit == /\ tid \in 1..Len(Traces) /\ l = 1
          /\ now = 0 /\ socks = << >> /\ cur = 0 /\ sem = 0 /\ semQ = << >>
-         /\ reqs = [r \in Reqs |-> IdleReq] /\ evLog = << >> /\ unsol = 0
+         /\ reqs = [r \in Reqs |-> IdleReq] /\ evLog = << >> /\ unsol = 0 /\ wantUp = TRUE
 
 Dead(s) == s \in Socks /\ socks[s].st = "dead"
 TrIssue == IsEvent("issue") /\ \E werr \in BOOLEAN : Issue(E.r, werr)
@@ -21,9 +21,10 @@ TrCancel == IsEvent("cancel") /\ CallerCancel(E.r)
 \* the API call returned: outcome class and, for a response, which request the body was written for
 TrRet == /\ IsEvent("ret")
          /\ reqs[E.r].pc = "done" /\ reqs[E.r].res = E.res
+         /\ reqs[E.r].dl = E.t                      \* promptly: the call returns at the instant it completed
          /\ E.res = "resp" => reqs[E.r].from = E.from
          /\ reqs' = [reqs EXCEPT ![E.r].pc = "returned"]
-         /\ UNCHANGED <<now, socks, cur, sem, semQ, evLog, unsol>>
+         /\ UNCHANGED <<now, socks, cur, sem, semQ, evLog, unsol, wantUp>>
 TrSession == IsEvent("session") /\ SessionUp /\ Len(socks') = E.s
 TrAccRx == /\ IsEvent("acc_rx")
            /\ IF Dead(E.s) THEN UNCHANGED vars ELSE AccRecv(E.s) /\ Head(socks[E.s].c2a) = E.r
@@ -36,6 +37,8 @@ TrPeerClose == IsEvent("peer_close") /\ (IF Dead(E.s) THEN UNCHANGED vars ELSE P
 \* the owner's listener was called: emitted by the read that completes an EVENT message
 TrListener == /\ IsEvent("listener")
               /\ CtrlRead(E.s) /\ Head(socks[E.s].a2c) = <<"event", E.n>>
+TrClose == IsEvent("close") /\ UserClose
+TrOpen == IsEvent("open") /\ UserOpen
 TrEnd == IsEvent("end") /\ Quiescent /\ UNCHANGED vars
          /\ \A r \in Reqs : reqs[r].pc \in {"idle", "returned"}       \* nothing hangs
 
@@ -46,9 +49,9 @@ Advance == /\ HasEv /\ E.t > now /\ Quiescent
            /\ LET cand == {d \in Deadlines : d > now /\ d <= E.t} \cup {E.t}
               IN now' = CHOOSE x \in cand : \A y \in cand : x <= y
            /\ \A d \in Deadlines : d >= now
-           /\ UNCHANGED <<socks, cur, sem, semQ, reqs, evLog, unsol, tid, l>>
+           /\ UNCHANGED <<socks, cur, sem, semQ, reqs, evLog, unsol, wantUp, tid, l>>
 
-TNext == TrIssue \/ TrCancel \/ TrRet \/ TrSession \/ TrAccRx \/ TrAccTx \/ TrPeerClose \/ TrListener \/ TrEnd
+TNext == TrIssue \/ TrCancel \/ TrRet \/ TrSession \/ TrAccRx \/ TrAccTx \/ TrPeerClose \/ TrListener \/ TrClose \/ TrOpen \/ TrEnd
          \/ Silent \/ Advance
 TSpec == TInit /\ [][TNext]_tvars
 
